@@ -1,16 +1,29 @@
-import FluentProofs.Fallback
+import FluentProofs.FallbackApi
 /-!
 # C16 — locale fallback picks the first locale that can answer, in every API shape
 
-Model: `FluentModel.Fallback` (the three macros of `fluent-fallback/src/bundles.rs`, transcribed).
-`lbs : List (L × BundleResult …)` is the ordered locale list with each locale's bundle result;
-`PerLocale lbs` says that the bundle's own `locales[0]` is that locale.  All theorems hold for every
-such list, every key (id + args), every resolver (`A → Fmt`), every initial `errors` vector.
+Model: `FluentModel.Fallback` — the three macros of `fluent-fallback/src/bundles.rs`
+(`format_value_from_inner!`, `format_values_from_inner!`, `format_messages_from_inner!`),
+`format_message_from_bundle` and the six request APIs of `Bundles`, transcribed; this is the code the
+model driver `fvm_fb` runs.
+
+`lbs : List (L × BundleResult …)` is the ordered locale list with each locale's bundle result (`ok` or
+partially broken with carried errors); `PerLocale lbs` says that each bundle's own `locales[0]` is
+that locale (a bundle with an empty locale list makes the Rust code panic; the model has that panic).
+All theorems hold for every such list, every key (id + args), every key list (duplicates included),
+every message content / resolver (`A → Fmt`), every initial `errors` vector, every request history.
+Vocabulary (`FluentProofs.Fallback`): `answerOf k p` — `p`'s formatting of `k` if `p` has the message
+with a value; `missErrs k p` — `p`'s carried errors then `MissingValue(p)`/`MissingMessage(p)`;
+`resolverEntry` — `Resolver(id, p, errs)` iff `errs ≠ []`; `finalEntry` — the locale-less entry;
+`batchSpec` — results, error list (walked locale by walked locale: carried errors, then one slot
+`roundErrs k pre p` per key) and bundles consumed of a batch request.
 -/
 namespace FluentProofs.C16
 open FluentModel.Fallback FluentProofs.Fallback
 
 variable {I L A N T RE BE : Type}
+
+/-! ## value_spec -/
 
 /-- **value_spec (first locale wins).**  If `p` is the first locale whose bundle has the message with a
 value, `format_value` returns `p`'s formatting and appends to `errors`, in this order: for every
@@ -29,7 +42,7 @@ theorem C16_value_first (k : Key I A) (pre post : List (L × BundleResult I L A 
 
 /-- **value_spec (nothing answers).**  If no locale has the message with a value, `format_value`
 returns `None`; the errors are every locale's carried errors and entry, in order, and a final
-locale-less `MissingValue` (some locale had the message) or `MissingMessage`. -/
+locale-less `MissingValue` (some locale had the message) or `MissingMessage`; every bundle is pulled. -/
 theorem C16_value_none (k : Key I A) (lbs : List (L × BundleResult I L A N T RE BE)) (h : PerLocale lbs)
     (hno : ∀ q ∈ lbs, answers (T := T) (RE := RE) k q = false) (errors : List (LocErr I L RE BE)) :
     formatValueFromInner (T := T) (lbs.map (·.2)) k.id k.args errors =
@@ -38,11 +51,273 @@ theorem C16_value_none (k : Key I A) (lbs : List (L × BundleResult I L A N T RE
              lbs.length) := by
   rw [formatValueFromInner_spec k _ h, valueSpec_none k lbs hno]
 
-/-- `format_value` never panics on per-locale bundles and returns `None` iff no locale can answer. -/
+/-- `format_value` does not panic on per-locale bundles and returns `None` iff no locale can answer. -/
 theorem C16_value_none_iff (k : Key I A) (lbs : List (L × BundleResult I L A N T RE BE)) (h : PerLocale lbs)
     (errors : List (LocErr I L RE BE)) :
     ∃ r es n, formatValueFromInner (T := T) (lbs.map (·.2)) k.id k.args errors = .done (r, es, n) ∧
       (r = none ↔ ∀ q ∈ lbs, answers (T := T) (RE := RE) k q = false) :=
   ⟨_, _, _, formatValueFromInner_spec k lbs h errors, valueSpec_result_none_iff k lbs⟩
+
+/-! ## values_eq_single -/
+
+/-- **values_eq_single (results).**  For every key list (duplicates included) and every index `i`,
+`format_values(keys)[i]` is what `format_value(keys[i])` returns (whatever `errors` vectors the two
+calls are given). -/
+theorem C16_values_eq_single (keys : List (Key I A)) (lbs : List (L × BundleResult I L A N T RE BE))
+    (h : PerLocale lbs) (errors errors' : List (LocErr I L RE BE)) :
+    ∃ rs es n, formatValuesFromInner (T := T) (lbs.map (·.2)) keys errors = .done (rs, es, n) ∧
+      rs.length = keys.length ∧
+      ∀ (i : Nat) (k : Key I A), keys[i]? = some k →
+        ∃ r es' n', formatValueFromInner (T := T) (lbs.map (·.2)) k.id k.args errors' = .done (r, es', n') ∧
+          rs[i]? = some r := by
+  refine ⟨_, _, _, formatValuesFromInner_spec keys lbs h errors, by simp [batchSpec], ?_⟩
+  intro i k hk
+  refine ⟨_, _, _, formatValueFromInner_spec k lbs h errors', ?_⟩
+  rw [(batchSpec_results _ _ _ keys lbs i k hk).1, valueSpec_result]
+
+/-- **values_spec (errors, closed form).**  `format_values` appends exactly `(batchSpec …).2.1`: for
+each walked locale, in order — the walk stops after the first locale at which every key is
+answered — its carried bundle errors and then, per key in key order, the slot `roundErrs k pre p`
+(nothing if an earlier locale answered `k`; `Resolver` entry iff `p` answers with resolver errors;
+else `MissingValue(p)`/`MissingMessage(p)`); finally one locale-less entry per unanswered key, in key
+order.  The number of bundles pulled is the length of the walk. -/
+theorem C16_values_spec (keys : List (Key I A)) (lbs : List (L × BundleResult I L A N T RE BE))
+    (h : PerLocale lbs) (errors : List (LocErr I L RE BE)) :
+    formatValuesFromInner (T := T) (lbs.map (·.2)) keys errors =
+      .done (keys.map (fun k => (valueSpec (T := T) k lbs).1),
+             errors ++
+               ((batchWalk (valueAns (T := T)) keys [] lbs).flatMap (walkErrs (valueAns (T := T)) missEntry keys) ++
+                keys.flatMap (finalErrs (valueAns (T := T)) valueFin lbs)),
+             (batchWalk (valueAns (T := T)) keys [] lbs).length) := by
+  rw [formatValuesFromInner_spec keys lbs h errors]
+  simp [batchSpec, valueSpec_result]
+
+/-- **values_eq_single (errors).**  A single request *is* the batch request with one key: same
+result, same errors, same bundles pulled … -/
+theorem C16_value_eq_singleton_batch (k : Key I A) (lbs : List (L × BundleResult I L A N T RE BE))
+    (h : PerLocale lbs) (errors : List (LocErr I L RE BE)) :
+    formatValuesFromInner (T := T) (lbs.map (·.2)) [k] errors =
+      (formatValueFromInner (T := T) (lbs.map (·.2)) k.id k.args errors).map fun (r, es, n) => ([r], es, n) := by
+  rw [formatValuesFromInner_spec [k] lbs h errors, formatValueFromInner_spec k lbs h errors,
+    valueSpec_eq_batch_singleton]
+  simp [Outcome.map, batchSpec]
+
+/-- … and in a batch that contains `k`, the slots of `k` (the errors attributed to `k`: everything the
+batch pushes for `k` while walking, i.e. all but carried bundle errors and final entries), concatenated
+in order, are exactly the slots of the one-key batch — the single request's errors minus carried
+bundle errors. (The final entry of `k` is `finalErrs … lbs k` in both.) -/
+theorem C16_values_attribution (keys : List (Key I A)) (k : Key I A) (hk : k ∈ keys)
+    (lbs : List (L × BundleResult I L A N T RE BE)) :
+    (batchWalk (valueAns (T := T)) keys [] lbs).flatMap (fun w => roundErrs (valueAns (T := T)) missEntry k w.1 w.2) =
+      (batchWalk (valueAns (T := T)) [k] [] lbs).flatMap (fun w => roundErrs (valueAns (T := T)) missEntry k w.1 w.2) :=
+  batch_key_slots _ _ keys k hk [] lbs
+
+/-! ## messages_spec -/
+
+/-- **messages_spec.**  `format_messages` returns per key the message (value + attributes, formatted by
+`format_message_from_bundle`) of the first locale that has the message at all (`messageAns`), and
+appends the batch error list for `MissingMessage`/`Resolver` entries (same shape as for values,
+final entries are `MissingMessage(None)`). -/
+theorem C16_messages_spec (keys : List (Key I A)) (lbs : List (L × BundleResult I L A N T RE BE))
+    (h : PerLocale lbs) (errors : List (LocErr I L RE BE)) :
+    formatMessagesFromInner (N := N) (T := T) (lbs.map (·.2)) keys errors =
+      .done (keys.map (fun k => resultOf (messageAns (N := N) (T := T)) k lbs),
+             errors ++
+               ((batchWalk (messageAns (N := N) (T := T)) keys [] lbs).flatMap
+                  (walkErrs (messageAns (N := N) (T := T)) messageMiss keys) ++
+                keys.flatMap (finalErrs (messageAns (N := N) (T := T)) messageFin lbs)),
+             (batchWalk (messageAns (N := N) (T := T)) keys [] lbs).length) := by
+  rw [formatMessagesFromInner_spec keys lbs h errors]
+  simp [batchSpec]
+
+/-- the per-key result of `format_messages` in words: the first locale having the message answers
+with `format_message_from_bundle`'s output; `None` iff no locale has the message -/
+theorem C16_messages_first (k : Key I A) (pre post : List (L × BundleResult I L A N T RE BE))
+    (p : L × BundleResult I L A N T RE BE)
+    (hpre : ∀ q ∈ pre, q.2.bundleOf.getMessage k.id = none)
+    (m : Msg A N T RE) (hp : p.2.bundleOf.getMessage k.id = some m) :
+    resultOf (messageAns (N := N) (T := T)) k (pre ++ p :: post) =
+      (formatMessageFromBundle p.2.bundleOf k []).1 ∧
+    (formatMessageFromBundle p.2.bundleOf k []).1 =
+      some { value := m.value.map fun v => (v k.args).text,
+             attributes := m.attrs.map fun a => (a.1, (a.2 k.args).text) } := by
+  have hattrs : ∀ (l : List (N × (A → Fmt T RE))) (es : List RE),
+      (formatAttrs k.args l es).1 = l.map fun a => (a.1, (a.2 k.args).text) := by
+    intro l
+    induction l with
+    | nil => intro es; rfl
+    | cons a l ih => intro es; obtain ⟨n, pat⟩ := a; simp [formatAttrs, ih]
+  have h2 : (formatMessageFromBundle p.2.bundleOf k ([] : List RE)).1 =
+      some { value := m.value.map fun v => (v k.args).text,
+             attributes := m.attrs.map fun a => (a.1, (a.2 k.args).text) } := by
+    unfold formatMessageFromBundle
+    cases hv : m.value <;> simp [hp, hv, hattrs]
+  refine ⟨?_, h2⟩
+  have hq : ∀ q ∈ pre, messageAns (N := N) (T := T) k q = none := by
+    intro q hq
+    simp [messageAns, formatMessageFromBundle, hpre q hq]
+  cases hf : formatMessageFromBundle p.2.bundleOf k ([] : List RE) with
+  | mk o es =>
+    rw [hf] at h2
+    simp only at h2
+    subst h2
+    exact resultOf_first (messageAns (N := N) (T := T)) k pre post p (_, es) hq (by simp [messageAns, hf])
+
+/-- **messages: batch = per-key single.**  For every index `i`, `format_messages(keys)[i]` is what
+`format_messages([keys[i]])` returns. -/
+theorem C16_messages_eq_single (keys : List (Key I A)) (lbs : List (L × BundleResult I L A N T RE BE))
+    (h : PerLocale lbs) (errors errors' : List (LocErr I L RE BE)) :
+    ∃ rs es n, formatMessagesFromInner (N := N) (T := T) (lbs.map (·.2)) keys errors = .done (rs, es, n) ∧
+      rs.length = keys.length ∧
+      ∀ (i : Nat) (k : Key I A), keys[i]? = some k →
+        ∃ r es' n', formatMessagesFromInner (N := N) (T := T) (lbs.map (·.2)) [k] errors' = .done ([r], es', n') ∧
+          rs[i]? = some r := by
+  refine ⟨_, _, _, formatMessagesFromInner_spec keys lbs h errors, by simp [batchSpec], ?_⟩
+  intro i k hk
+  obtain ⟨h1, h2⟩ := batchSpec_results (messageAns (N := N) (T := T)) (messageMiss (I := I) (L := L) (RE := RE) (BE := BE))
+    (messageFin (I := I) (L := L) (RE := RE) (BE := BE)) keys lbs i k hk
+  have h3 := formatMessagesFromInner_spec (N := N) (T := T) [k] lbs h errors'
+  rw [h2] at h3
+  exact ⟨_, _, _, h3, h1⟩
+
+/-- attribution for messages, as for values -/
+theorem C16_messages_attribution (keys : List (Key I A)) (k : Key I A) (hk : k ∈ keys)
+    (lbs : List (L × BundleResult I L A N T RE BE)) :
+    (batchWalk (messageAns (N := N) (T := T)) keys [] lbs).flatMap
+        (fun w => roundErrs (messageAns (N := N) (T := T)) messageMiss k w.1 w.2) =
+      (batchWalk (messageAns (N := N) (T := T)) [k] [] lbs).flatMap
+        (fun w => roundErrs (messageAns (N := N) (T := T)) messageMiss k w.1 w.2) :=
+  batch_key_slots _ _ keys k hk [] lbs
+
+/-! ## sync_eq_async -/
+
+/-- **sync_eq_async.**  For every generator sequence, cache state, key / key list and `errors`
+vector: the async API answers identically in both modes (same result, same errors, same number of
+bundles pulled), the sync API in sync mode returns `Ok` of the same answer, and the sync API in async
+mode returns `Err(SyncRequestInAsyncMode)` leaving `errors` and the cache untouched.
+(No `PerLocale` hypothesis: this also covers panicking requests.) -/
+theorem C16_sync_eq_async (c : CacheSt I L A N T RE BE) (k : Key I A) (ks : List (Key I A))
+    (errors : List (LocErr I L RE BE)) :
+    -- async API, both modes
+    (((Bundles.iter c).formatValue (T := T) k.id k.args errors).map (fun (r, es, b) => (r, es, b.cache.pulled)) =
+      ((Bundles.stream c).formatValue (T := T) k.id k.args errors).map (fun (r, es, b) => (r, es, b.cache.pulled))) ∧
+    (((Bundles.iter c).formatValues (T := T) ks errors).map (fun (r, es, b) => (r, es, b.cache.pulled)) =
+      ((Bundles.stream c).formatValues (T := T) ks errors).map (fun (r, es, b) => (r, es, b.cache.pulled))) ∧
+    (((Bundles.iter c).formatMessages (N := N) (T := T) ks errors).map (fun (r, es, b) => (r, es, b.cache.pulled)) =
+      ((Bundles.stream c).formatMessages (N := N) (T := T) ks errors).map (fun (r, es, b) => (r, es, b.cache.pulled))) ∧
+    -- sync API in sync mode = async API
+    ((Bundles.iter c).formatValueSync (T := T) k.id k.args errors =
+      ((Bundles.iter c).formatValue (T := T) k.id k.args errors).map (fun (r, es, b) => (.ok r, es, b))) ∧
+    ((Bundles.iter c).formatValuesSync (T := T) ks errors =
+      ((Bundles.iter c).formatValues (T := T) ks errors).map (fun (r, es, b) => (.ok r, es, b))) ∧
+    ((Bundles.iter c).formatMessagesSync (N := N) (T := T) ks errors =
+      ((Bundles.iter c).formatMessages (N := N) (T := T) ks errors).map (fun (r, es, b) => (.ok r, es, b))) ∧
+    -- sync API in async mode
+    ((Bundles.stream c).formatValueSync (T := T) k.id k.args errors =
+      .done (.error .syncRequestInAsyncMode, errors, .stream c)) ∧
+    ((Bundles.stream c).formatValuesSync (T := T) ks errors =
+      .done (.error .syncRequestInAsyncMode, errors, .stream c)) ∧
+    ((Bundles.stream c).formatMessagesSync (N := N) (T := T) ks errors =
+      .done (.error .syncRequestInAsyncMode, errors, .stream c)) := by
+  refine ⟨?_, ?_, ?_, ?_, ?_, ?_, rfl, rfl, rfl⟩
+  · simp only [Bundles.formatValue, reply, formatValueFromIter, formatValueFromStream]
+    cases formatValueFromInner (T := T) c.source k.id k.args errors <;> rfl
+  · simp only [Bundles.formatValues, reply, formatValuesFromIter, formatValuesFromStream]
+    cases formatValuesFromInner (T := T) c.source ks errors <;> rfl
+  · simp only [Bundles.formatMessages, reply, formatMessagesFromIter, formatMessagesFromStream]
+    cases formatMessagesFromInner (N := N) (T := T) c.source ks errors <;> rfl
+  · simp only [Bundles.formatValue, Bundles.formatValueSync, reply, formatValueFromIter]
+    cases formatValueFromInner (T := T) c.source k.id k.args errors <;> rfl
+  · simp only [Bundles.formatValues, Bundles.formatValuesSync, reply, formatValuesFromIter]
+    cases formatValuesFromInner (T := T) c.source ks errors <;> rfl
+  · simp only [Bundles.formatMessages, Bundles.formatMessagesSync, reply, formatMessagesFromIter]
+    cases formatMessagesFromInner (N := N) (T := T) c.source ks errors <;> rfl
+
+/-! ## histories: repeated requests on one instance -/
+
+/-- **history.**  For every history of operations (the six request APIs and `errors.clear()`) on one
+`Bundles` instance whose generator delivers the per-locale sequence `lbs`: the run does not panic and
+its trace is `traceSpec`: the i-th response is `specResponse sync lbs req_i` — a function of the mode,
+the locale list and the i-th request only (not of earlier requests or of what the cache already
+holds); each request appends its errors to the caller's vector; the cache holds the maximum number of
+bundles any request so far needed. -/
+theorem C16_history (lbs : List (L × BundleResult I L A N T RE BE)) (h : PerLocale lbs)
+    (b : Bundles I L A N T RE BE) (hsrc : b.cache.source = lbs.map (·.2))
+    (errors : List (LocErr I L RE BE)) (reqs : List (Request I A)) :
+    b.run errors reqs = .done (traceSpec (N := N) (T := T) b.isSync lbs b errors reqs) ∧
+    (traceSpec (N := N) (T := T) b.isSync lbs b errors reqs).map (·.1) =
+      reqs.map fun r => (specResponse (N := N) (T := T) b.isSync lbs r).1 :=
+  ⟨run_spec lbs h reqs b hsrc errors, traceSpec_responses _ lbs b errors reqs⟩
+
+/-! ## non-vacuity witnesses (concrete instances; `decide` here is a test, not a proof of the property)
+
+Two locales.  Locale 1's bundle is partially broken (carried error `7`), has message `10` without a
+value (one attribute) and lacks message `11`; locale 2 has `10` with a value whose resolver reports
+error `5` unless the key carries args `1`, and `11` with a plain value. -/
+
+section witness
+
+private def plainW (t : Nat) : Nat → Fmt Nat Nat := fun _ => { text := t, errs := [] }
+
+private def b1 : Bundle Nat Nat Nat Nat Nat Nat :=
+  { locales := [1]
+    getMessage := fun id => if id = 10 then some { value := none, attrs := [(3, plainW 103)] } else none }
+
+private def b2 : Bundle Nat Nat Nat Nat Nat Nat :=
+  { locales := [2]
+    getMessage := fun id =>
+      if id = 10 then
+        some { value := some fun a => if a = 1 then { text := 201, errs := [] } else { text := 200, errs := [5] },
+               attrs := [] }
+      else if id = 11 then some { value := some (plainW 211), attrs := [(4, plainW 214)] }
+      else none }
+
+private def lbsW : List (Nat × BundleResult Nat Nat Nat Nat Nat Nat Nat) := [(1, .broken b1 [7]), (2, .ok b2)]
+
+/-- the hypotheses of the theorems are satisfiable -/
+example : PerLocale lbsW := by
+  intro p hp
+  simp only [lbsW, List.mem_cons, List.not_mem_nil, or_false] at hp
+  rcases hp with rfl | rfl <;> rfl
+
+/-- value: falls back past locale 1 (carried error, `MissingValue(1)`), answered by locale 2 with a resolver error -/
+example :
+    formatValueFromInner (lbsW.map (·.2)) 10 0 [] =
+      .done (some 200, [.bundle 7, .missingValue 10 (some 1), .resolver 10 2 [5]], 2) := by decide
+
+/-- value: nobody has message `12` -/
+example :
+    formatValueFromInner (T := Nat) (lbsW.map (·.2)) 12 0 [] =
+      .done (none, [.bundle 7, .missingMessage 12 (some 1), .missingMessage 12 (some 2), .missingMessage 12 none], 2) := by
+  decide
+
+/-- values: duplicates, mixed availability, a key with args -/
+example :
+    formatValuesFromInner (lbsW.map (·.2)) [⟨10, 0⟩, ⟨12, 0⟩, ⟨10, 1⟩, ⟨11, 0⟩] [] =
+      .done ([some 200, none, some 201, some 211],
+             [.bundle 7, .missingValue 10 (some 1), .missingMessage 12 (some 1), .missingValue 10 (some 1),
+              .missingMessage 11 (some 1),
+              .resolver 10 2 [5], .missingMessage 12 (some 2),
+              .missingMessage 12 none], 2) := by decide
+
+/-- messages: the value-less message of locale 1 *is* an answer; early exit after locale 1 -/
+example :
+    formatMessagesFromInner (lbsW.map (·.2)) [⟨10, 0⟩] [] =
+      .done ([some { value := none, attributes := [(3, 103)] }], [.bundle 7], 1) := by decide
+
+example :
+    formatMessagesFromInner (lbsW.map (·.2)) [⟨11, 0⟩, ⟨10, 0⟩] [] =
+      .done ([some { value := some 211, attributes := [(4, 214)] }, some { value := none, attributes := [(3, 103)] }],
+             [.bundle 7, .missingMessage 11 (some 1)], 2) := by decide
+
+private def b3 : Bundle Nat Nat Nat Nat Nat Nat := { b2 with locales := [] }
+
+/-- a bundle without a locale panics only when an error entry needs the locale -/
+example :
+    formatValueFromInner (BE := Nat) [.ok b3] 11 0 [] = .done (some 211, [], 1) ∧
+    formatValueFromInner (BE := Nat) [.ok b3] 10 0 [] =
+      .panic "index out of bounds: the len is 0 but the index is 0" := by decide
+
+end witness
 
 end FluentProofs.C16
